@@ -105,6 +105,25 @@ func c05Requests() []vReq {
 			}
 		}
 	}
+	// request SIZE: one request whose rows form ONE row-format WAL entry, at the msgpack array-header
+	// boundaries (fixarray <=15 | array16 <=65535 | array32): the WAL entry of a large request must be
+	// recovered like that of a small one
+	for _, rows := range []int{15, 16, 65535, 65536} {
+		m := meas()
+		var sb strings.Builder
+		items := make([]interface{}, 0, rows)
+		for i := 0; i < rows; i++ {
+			us := c05Times[0].us + int64(i)
+			fmt.Fprintf(&sb, "%s v=%d.5 %d\n", m, i, us*1000)
+		}
+		out = append(out, vReq{Name: fmt.Sprintf("line-protocol-bulk/rows=%d", rows), Path: "/api/v1/write/line-protocol", CT: "text/plain", Body: []byte(sb.String()), Meas: m})
+		m2 := meas()
+		for i := 0; i < rows; i++ {
+			items = append(items, map[string]interface{}{"m": m2, "t": c05Times[0].us + int64(i), "fields": map[string]interface{}{"v": float64(i) + 0.5}})
+		}
+		body, _ := msgpack.Marshal(items)
+		out = append(out, vReq{Name: fmt.Sprintf("msgpack-row-bulk/rows=%d", rows), Path: "/api/v1/write/msgpack", CT: "application/msgpack", Body: body, Meas: m2})
+	}
 	// integer measurement id (accepted by the live decoder as measurement_<n>)
 	{
 		tval, _ := unitFor(c05Times[0].us)
